@@ -36,12 +36,14 @@ def deep(roots):
             rec.append((id(n), n.id, n.name, n.content, n.tail, tuple(n.attributes.items()),
                         tuple(n.extras.items()), n.prefix, tuple(n.nsmap.items()), g,
                         tuple(id(c) for c in n.children), id(n.parent) if n.parent is not None else None,
-                        id(n.attributes), id(n.extras), id(n.children)))
+                        id(n.attributes), id(n.extras), id(n.children),
+                        tuple(sorted((k, repr(v)[:60]) for k, v in vars(n).items() if k not in _SLOTS))))
     return rec
 
 
+_SLOTS = {"_id", "_name", "_parent", "_content", "_tail", "_attributes", "_nsmap", "_prefix", "_extras", "_children"}
 FIELD_NAMES = ("object", "id", "name", "content", "tail", "attributes", "extras", "prefix", "nsmap",
-               "nsmap-sharing-group", "children", "parent", "attributes-object", "extras-object", "children-object")
+               "nsmap-sharing-group", "children", "parent", "attributes-object", "extras-object", "children-object", "other-instance-attributes")
 
 
 def diff(a, b):
